@@ -1174,6 +1174,19 @@ func (w *world) runRender(sum *summary, id string) map[string]any {
 	case r1.err == nil:
 		sum.Hits["render-ok"]++
 		sum.Hits["render-composed"] += len(comp)
+		for _, c := range comp {
+			if c.(map[string]any)["name"].(string) != "" {
+				sum.Hits["render-composed-keeping-observed-name"]++
+			} else {
+				sum.Hits["render-composed-new"]++
+			}
+		}
+		if n := len(r1.calls); n > 0 && r1.calls[n-1].(map[string]any)["rsp"].(map[string]any)["xrdy"].(string) != "none" {
+			sum.Hits["render-ok-explicit-composite-readiness"]++
+		}
+		if r1.out.Context != nil && len(ctxOut) > 0 {
+			sum.Hits["render-with-context-out"]++
+		}
 		rd := xr["ready"].(map[string]any)
 		sum.Hits["render-ready-"+rd["status"].(string)+"-"+rd["kind"].(string)]++
 		if len(results) > 0 {
@@ -1260,6 +1273,11 @@ func main() {
 		}
 		w := newWorld(sc.Input)
 		// render first: its inputs are taken from the cluster BEFORE the controller acts on it
+		if sc.Input.Ctx0 == "none" {
+			sum.Hits["parity-judged"]++
+		} else {
+			sum.Hits["render-with-initial-context"]++
+		}
 		rnd := w.runRender(sum, sc.ID)
 		ctl := w.runController(sum, sc.ID)
 		rec := map[string]any{"ev": "out", "scenario": sc.ID, "input": sc.Input, "rnd": rnd, "ctl": ctl}
